@@ -216,6 +216,32 @@ func c35Worker(w *WorkerCtx) {
 		w.Emit(WorkResult{Kind: "item", Violations: []Violation{v}, Replay: WriteReplay(filepath.Join(verifDir(), "replay"), rf, "leb128"), NonTrivial: true, Shape: "leb"})
 		return
 	}
+	// compile zoo: the same multi-contract worlds in every worker process, each compiled from scratch several times
+	nzoo := 4
+	if w.Tier == "thorough" {
+		nzoo = 40
+	}
+	for k := 0; k < nzoo; k++ {
+		seed := base + 500 + uint64(k)
+		r := compileZoo(seed, 4)
+		res := WorkResult{Kind: "item", Seed: seed, Stats: NewRunStats(), Shape: fmt.Sprintf("zoo-%d/worker-%d", seed, w.Index), NonTrivial: r.Programs > 3,
+			Extra: map[string]int{fmt.Sprintf("digest:z%d:%s", seed, r.Digest): 1, "programs_rendered": r.Programs, "instructions_round_tripped": r.Instr, "compile_zoo_worlds": 1}}
+		res.Stats.Execs = r.Programs
+		if len(r.Violations) > 0 {
+			v := r.Violations[0]
+			if v.Oracle == "zoo.builds" {
+				w.Emit(WorkResult{Kind: "harness-error", Msg: "compile zoo does not build: " + clip(v.Detail, 3000)})
+				return
+			}
+			cu, _ := json.Marshal(map[string]uint64{"zoo": seed})
+			rf := &ReplayFile{Property: "C35", Oracle: v.Oracle, VerifSeed: int64(w.Seed), Tier: w.Tier, Kind: "c35", Custom: cu, Violation: &v}
+			res.Replay = WriteReplay(filepath.Join(verifDir(), "replay"), rf, fmt.Sprintf("zoo-%d", seed))
+			res.Violations = []Violation{v}
+			w.Emit(res)
+			return
+		}
+		w.Emit(res)
+	}
 	for k := 0; k < nseeds; k++ {
 		seed := base + uint64(k)
 		r := compileHistory(seed)
@@ -269,6 +295,15 @@ func init() {
 		}
 		if err := json.Unmarshal(rf.Custom, &cu); err != nil {
 			panic("harness: bad c35 replay")
+		}
+		if z, ok := cu["zoo"]; ok {
+			// map iteration order is re-drawn on every run: repeat the compilations a few times
+			for i := 0; i < 5; i++ {
+				if vs := compileZoo(z, 6).Violations; len(vs) > 0 {
+					return vs
+				}
+			}
+			return nil
 		}
 		return compileHistory(cu["seed"]).Violations
 	}
